@@ -133,4 +133,7 @@ def gen_lines(rng, cls="plain", max_measures=6):
     if rng.random() < 0.5:
         out += ["", "*---------------------- MAIN DATA FIELD", ""]
     out += [ln for _, _, ln in lines]
+    if rng.random() < 0.2:
+        # blanks or a tab around a line are not part of it
+        out = [rng.choice(["  ", "\t", " "]) + ln + rng.choice(["", " ", "\t"]) if ln and rng.random() < 0.5 else ln for ln in out]
     return out, layout, dict(order=order)
